@@ -6,6 +6,7 @@
 # Evidence and replays of these runs go to /tmp, never into the committed directories.
 set -u
 id=$1; patch=$(readlink -f "$2"); shift 2
+ROOT=$(cd "$(dirname "$(readlink -f "$0")")/.." && pwd)
 wt=/tmp/seedtest-wt-$id-$$
 git -C /repo worktree add -q --detach "$wt" HEAD || exit 2
 trap 'git -C /repo worktree remove --force "$wt" >/dev/null 2>&1; rm -rf "$wt"' EXIT
@@ -13,7 +14,7 @@ cd "$wt" || exit 2
 git apply "$patch" || { echo "patch does not apply"; exit 2; }
 export GOFLAGS=-mod=mod GOPROXY=off GOSUMDB=off
 go build ./... && go test -vet=off -count=1 ./util/... >/dev/null 2>&1 && echo "seed $id: builds, baseline passes" || echo "seed $id: BUILD/BASELINE FAILS"
-cd "$(dirname "$(readlink -f "$0")")/.."
+cd "$ROOT"
 export VERIF_REPO=$wt VERIF_EVIDENCE_DIR=/tmp/seedtest-evidence VERIF_REPLAY_DIR=/tmp/seedtest-replays
 mkdir -p $VERIF_EVIDENCE_DIR $VERIF_REPLAY_DIR
 for p in "$@"; do
